@@ -431,7 +431,7 @@ def path_class(path, want_all):
 # ---------------------------------------------------------------------------------------------
 # leg B in-process: build the script for `iso_tools fsops project`
 # ---------------------------------------------------------------------------------------------
-def project_case(seed, root, c19, nversions, fault_steps=(0, 1), max_k=100000):
+def project_case(seed, root, c19, nversions, fault_steps=(0, 1, 2), max_k=100000):
     rng = random.Random(seed)
     profile = rng.choice(["core", "plain"])
     p = isogen.generate(seed % (1 << 48), profile)
@@ -680,7 +680,9 @@ def write_phase_points(tfile, adir):
             if pid != main or name not in points:
                 continue
             counts[name] += 1
-            if adir in rest:
+            # O_NONBLOCK directory opens are the source walker listing the project root (which contains the artifact
+            # directory): read phase, and their position depends on the file system's directory order
+            if adir in rest and "O_NONBLOCK" not in rest:
                 points[name].append(counts[name])
     return points
 
